@@ -91,7 +91,18 @@ def _type_time(db, chk, m, cls, G):
         return
     # 2 bit values
     mp = next((v for v in r.env.values() if isinstance(v, dict) and v and set(v) <= set(types) and all(isinstance(x, int) for x in v.values())), None)
+    if mp is None:          # the assignment may live in a small object (a tuple of (type, bit) pairs, an attribute)
+        def pairs_of(v):
+            items = v.items if isinstance(v, PyTuple) else (v if isinstance(v, list) else None)
+            if items and all(isinstance(x, PyTuple) and len(x.items) == 2 and isinstance(x.items[0], str) and isinstance(x.items[1], int) for x in items) and {x.items[0] for x in items} <= set(types):
+                return {x.items[0]: x.items[1] for x in items}
+            return None
+        cands = list(r.env.values()) + [a for v in r.env.values() if isinstance(v, Obj) for a in v.attrs.values()]
+        mp = next((d for d in map(pairs_of, cands) if d), None) or next((a for a in cands if isinstance(a, dict) and a and set(a) <= set(types) and all(isinstance(x, int) for x in a.values())), None)
     want = {ty: 1 << i for i, ty in enumerate(types)}
+    if mp is None:
+        chk.ob(rule, "marker values are distinct powers of two (one bit per type)", None, where, found="the type -> marker assignment was not found among the values of the run", accepted=want)
+        return
     vals_ok = isinstance(mp, dict) and dict(mp) == want
     if isinstance(mp, dict) and not vals_ok:
         vs = list(mp.values())
@@ -188,7 +199,7 @@ def _type_time(db, chk, m, cls, G):
         missing = [T.show(n)[:120] for n in need if n not in seen]
         extra = [T.show(s)[:160] for s in seen if s not in need and T.not_(s) not in need and not (s[0] == "not" and s[1][0] == "in")
                  and s[0] != "in"]
-        chk.ob(rule, "label loop: a running value u > 0 gets type k iff u & bit_k", not missing and not extra, where,
+        chk.ob(rule, "label loop: a running value u > 0 gets type k iff u & bit_k", (not missing and not extra) if (ok_key or (not missing and not extra)) else None, where,          # (with the label column itself not understood, decisions that are absent from ITS construction prove nothing)
                found={"decisions": [T.show(s)[:120] for s in seen]}, accepted=[T.show(n)[:120] for n in need],
                why="u == bit_k labels only single-type states; a missing u > 0 guard labels idle time")
     else:
